@@ -286,6 +286,13 @@ func randomPolicy(r *rng.R, ru ruleT) policy {
 			return evT{}, false
 		}
 		events++
+		// a goroutine parked between the deadline store and the state CAS of a transition to Open
+		// (either order): let the clock move right there, by about a retry timeout
+		for _, i := range live {
+			if a := v.at(i); (a == 302 || a == 304) && r.Chance(12, 100) {
+				return tick(uint64(r.PickI(1, int64(T), int64(T), int64(T)+1))), true
+			}
+		}
 		if r.Chance(22, 100) {
 			var dt uint64
 			switch r.Intn(8) {
